@@ -95,6 +95,12 @@
 // Restart); (*Replica).Upgrader() returns it (e.g. to pre-submit a descriptor like an operator
 // would). TxSubmitUpgrade / UpgradeDescriptor build a governance upgrade proposal.
 //
+// Fault injection (faultapp.go): ReplicaConfig.ExtraApps registers additional applications with
+// the real mux; *FaultApp is a small counting application (method veriffault.Add, TxFaultAdd)
+// that can be armed per replica (ArmTx(k) / ArmBegin()) to fail ONCE with
+// api.UnavailableStateError after writing state -- a panic inside the mux that
+// Prepare/ProcessProposal recover from. Register an instance on every replica of a chain.
+//
 // Runtimes (runtime.go): RuntimeID, RuntimeDescriptor, TxRegisterRuntime, ComputeNode
 // (an extra node of an existing entity), ExecutorCommit + TxExecutorCommit (finalizes a
 // round of a one-worker runtime), (*Replica).RuntimeState.
